@@ -84,6 +84,27 @@ theorem written_times_close' (cwd : Str) (rnd : α → Int) (st : Stages α) (r 
   obtain ⟨names, o, _, _, _, hw⟩ := written_is_retrieval' cwd rnd st r sel hne
   exact verified_close _ hw.verified n₁ t₁ x₁ h1
 
+/-- Nothing without samples is ever handed to a writer: every written record holds at least one time step. -/
+theorem written_has_samples' (cwd : Str) (rnd : α → Int) (st : Stages α) (r : Req α) (sel : List (Entry α)) :
+    ∀ w ∈ writes (exportTrace cwd rnd st r sel), w.2.1 ≠ [] := by
+  intro w hwm
+  have hne : writes (exportTrace cwd rnd st r sel) ≠ [] := by
+    intro h; rw [h] at hwm; simp at hwm
+  obtain ⟨names, o, _, _, _, hw⟩ := written_is_retrieval' cwd rnd st r sel hne
+  generalize writes (exportTrace cwd rnd st r sel) = items at hw hwm
+  cases items with
+  | nil => simp at hwm
+  | cons it items =>
+    obtain ⟨n₁, t₁, x₁⟩ := it
+    have hc := verified_close _ hw.verified n₁ t₁ x₁ rfl w hwm
+    have hs := hw.samples
+    cases t₁ with
+    | nil => simp [noSamples] at hs
+    | cons a t₁ =>
+      intro he
+      rw [he] at hc
+      cases hc
+
 theorem not_common_refused' (cwd : Str) (rnd : α → Int) (st : Stages α) (r : Req α) (sel : List (Entry α))
     (ss : List (Summary α)) (tc : TimeCheck α) (hs : summaries sel = some ss)
     (htc : checkTimeArrays ss r.opts.twin r.opts.resample = .ok tc) (hnc : tc.isCommon = false)
